@@ -18,7 +18,7 @@ META = {
              "non-trivial = >= 2 QEC cycles (or QUTRIT calibration) and a non-default setting"),
     "assumptions": ["channel match m(a,b) from the statement (same qubit and same channel or one is ALL); zero-length operations only count against barriers"],
     "floors": {
-        "quick": {"circuits_swept": 3000, "composite_description_inputs": 100, "base_circuits_after_composite": 150, "circuits_reread_under_other_settings": 1000, "adjacent_pairs_compared": 100000, "barrier_neighbours_compared": 20000, "readout_lt_microwave": 300, "calibration_circuits": 200, "operations_observed": 200000},
+        "quick": {"multi_round_circuits": 40, "circuits_swept": 3000, "composite_description_inputs": 100, "base_circuits_after_composite": 150, "circuits_reread_under_other_settings": 1000, "adjacent_pairs_compared": 100000, "barrier_neighbours_compared": 20000, "readout_lt_microwave": 300, "calibration_circuits": 200, "operations_observed": 200000},
         "thorough": {"circuits_swept": 30000, "circuits_reread_under_other_settings": 10000, "adjacent_pairs_compared": 1000000, "barrier_neighbours_compared": 200000, "readout_lt_microwave": 3000, "calibration_circuits": 2000, "operations_observed": 2000000},
     },
 }
@@ -53,6 +53,9 @@ def gen_input(rng: random.Random) -> Dict[str, Any]:
             inp["composite"] = {"kind": "single_gate_edge", "exclude_gate_edges": [rng.choice(all_edges)] if all_edges else edges}
         elif inp["description"] == "connectivity" and rng.random() < 0.5:
             inp["composite"] = libgen.gen_composite(rng, inp)
+    if inp["constructor"] == "full" and not inp.get("composite") and inp.get("distance", 9) <= 3 and rng.random() < 0.25:
+        # the multi-round experiment constructor (unrolls, flattens and nests its blocks itself) on the same description and state
+        inp["multi_round_rounds"] = rng.sample(range(0, 5), rng.randint(1, 3))
     inp["glob"] = libgen.gen_global_settings(rng, default=rng.random() < 0.15)
     if rng.random() < 0.5:
         inp["glob_again"] = [libgen.gen_global_settings(rng, default=rng.random() < 0.2) for _ in range(rng.randint(1, 2))]
@@ -164,6 +167,16 @@ def check_input(inp: Dict[str, Any], acc: Acc):
         check_circuit(circuit, acc, case, "as constructed", ctor)
         modified = construct(inp).apply_modifiers()
         check_circuit(modified, acc, case, "unrolled", ctor)
+    # the multi-round experiment constructor on the same description (seeded change C10-r12: followers of a flattened block attached behind
+    # a shallower group member lose references when the flattened block is copied into the experiment circuit)
+    mr = None
+    if inp.get("multi_round_rounds"):
+        from qce_circuit.library.repetition_code.circuit_constructors import construct_repetition_code_multi_round_circuit
+        with libgen.override(g):
+            mr = construct_repetition_code_multi_round_circuit(qec_cycles=list(inp["multi_round_rounds"]), description=libgen.description_of(inp),
+                                                               initial_state=libgen.initial_state_of(inp))
+            acc.count("multi_round_circuits")
+            check_circuit(mr, acc, case, "multi-round experiment circuit", "multi_round")
     # the description a composite is based on, used for a circuit of its own AFTER the composite was evaluated
     base = inp.pop("_base_description_object", None)
     if base is not None:
@@ -182,6 +195,8 @@ def check_input(inp: Dict[str, Any], acc: Acc):
         with libgen.override(g2):
             check_circuit(circuit, acc, case, f"as constructed, re-read under settings #{k + 2}", ctor)
             check_circuit(modified, acc, case, f"unrolled, re-read under settings #{k + 2}", ctor)
+            if mr is not None:
+                check_circuit(mr, acc, case, f"multi-round experiment circuit, re-read under settings #{k + 2}", "multi_round")
             acc.count("circuits_reread_under_other_settings", 2)
     memo = memo_shadow.drain()
     if memo["discrepancy_count"]:
